@@ -412,6 +412,10 @@ class Component( ComponentLevel7 ):
         del x._dsl.elaborate_top
         x._dsl.full_name = "<deleted>"+x._dsl.full_name
       for y in removed_consts:
+        # A constant connected inside the removed component is only
+        # adjacent to removed signals: forget it at the top as well
+        if y in top._dsl.all_adjacency:
+          del top._dsl.all_adjacency[y]
         del y._dsl.parent_obj
 
       # We don't break nets anymore. Instead, we set the flags to true so
